@@ -569,6 +569,9 @@ def instrument_writer(I, prog):
     I.extra_models["core::iter::traits::iterator::Iterator::any"] = m_all_any
     I.extra_models["<core::str::iter::Chars<'a> as core::iter::traits::iterator::Iterator>::all"] = m_all_any
     I.extra_models["<core::str::iter::Chars<'a> as core::iter::traits::iterator::Iterator>::any"] = m_all_any
+    # over the bytes of the text the verdict is the same one: no byte of a multi-byte character is ASCII
+    I.extra_models["<core::str::iter::Bytes<'_> as core::iter::traits::iterator::Iterator>::all"] = m_all_any
+    I.extra_models["<core::str::iter::Bytes<'_> as core::iter::traits::iterator::Iterator>::any"] = m_all_any
 
 
 def run_writer_method(prog, body, is_attr_writer, flags=None):
